@@ -243,7 +243,7 @@ fn model_step(m: &mut Model, st: &Step) -> (String, Vec<u64>, Vec<i32>, usize) {
 // Schedules: add_signal of the same signal from two threads (through clones of one handle) while it
 // is being delivered; afterwards exactly one registration exists, and none once everything is gone.
 
-pub(super) mod sched_part {
+pub mod sched_part {
     use crate::props::reg::{fresh_registry, Disp, S1, S2};
     use crate::sched::{self, Exec, Opts, Scenario, ThreadSpec};
     use signal_hook::iterator::{Handle, Signals};
@@ -262,6 +262,11 @@ pub(super) mod sched_part {
     }
 
     pub fn build(name: &'static str, drop_instance_concurrently: bool) -> Scenario<Arc<St>> {
+        build_n(name, 2, drop_instance_concurrently, "C12")
+    }
+
+    /// `n` threads add the same signal through clones of one handle; messages carry `prefix`.
+    pub fn build_n(name: &'static str, n: usize, drop_instance_concurrently: bool, prefix: &'static str) -> Scenario<Arc<St>> {
         let setup = || {
             fresh_registry(&[(S1, Disp::Ignore), (S2, Disp::Ignore)]);
             let s = Signals::new(&[S1]).expect("new");
@@ -278,6 +283,9 @@ pub(super) mod sched_part {
             max_nest: 0,
         };
         let mut threads = vec![adder("A1"), adder("A2")];
+        for _ in 2..n {
+            threads.push(adder("A3"));
+        }
         threads.push(ThreadSpec {
             name: "D",
             body: Box::new(move |s: &Arc<St>| {
@@ -296,13 +304,13 @@ pub(super) mod sched_part {
             signals: vec![S1, S2],
             setup: Box::new(setup),
             threads,
-            finish: Box::new(|s, e| {
+            finish: Box::new(move |s, e| {
                 if !e.panics.is_empty() {
-                    return Err(format!("C12: a thread panicked: {:?}", e.panics));
+                    return Err(format!("{}: a thread panicked: {:?}", prefix, e.panics));
                 }
                 let w = wakes_of_probe(e, S2);
                 if w != 1 {
-                    return Err(format!("C12: after two concurrent add_signal calls for the same signal a delivery of it makes {} wake attempts (exactly one registration expected: re-adding is a no-op)", w));
+                    return Err(format!("{}: after concurrent add_signal calls for the same signal a delivery of it makes {} wake attempts (exactly one registration expected: re-adding is a no-op)", prefix, w));
                 }
                 let s = Arc::try_unwrap(s).map_err(|_| "engine: state shared".to_string())?;
                 drop(s);
@@ -310,7 +318,7 @@ pub(super) mod sched_part {
                 let w = wakes_of_probe(e, S2);
                 let w1 = wakes_of_probe(sched::exec(), S1);
                 if w != 0 || w1 != 0 {
-                    return Err(format!("C12: after the instance and all its handles are gone deliveries still make {} / {} wake attempts (a registration it made was not removed)", w1, w));
+                    return Err(format!("{}: after the instance and all its handles are gone deliveries still make {} / {} wake attempts (a registration it made was not removed: its action still runs and what it captured is never released)", prefix, w1, w));
                 }
                 Ok(sched::exec().log.iter().filter(|x| x.tag == "wake").count() as u64)
             }),
